@@ -407,14 +407,21 @@ func (lb *LoadBalancer) processHealthCheckResponse(backend *Backend, resp *http.
 	vhook.Yield("lb.probe.ok")
 	// If we get here, the backend is healthy
 	backend.Mutex.Lock()
+	if !backend.IsHealthy && time.Now().Before(backend.UnhealthyUntil) {
+		// The backend was ejected while this probe was in flight: the probe
+		// says nothing about the failures that followed it, the window stands.
+		backend.Mutex.Unlock()
+		return
+	}
 	wasUnhealthy := !backend.IsHealthy
 	backend.IsHealthy = true
-	backend.Mutex.Unlock()
 
-	// Update metrics to reflect healthy status
+	// Update metrics to reflect healthy status (under the backend lock so that
+	// a concurrent ejection cannot be overwritten by this stale report)
 	if lb.metricsCollector != nil {
 		lb.metricsCollector.UpdateBackendHealth(backend.Name, true)
 	}
+	backend.Mutex.Unlock()
 
 	if wasUnhealthy {
 		logging.L().Info().Str("backend", backend.Name).Msg("backend marked healthy via active check")
@@ -556,13 +563,14 @@ func (lb *LoadBalancer) IsBackendHealthy(backend *Backend) bool {
 		// Double-check after acquiring write lock to prevent race condition
 		if !backend.IsHealthy && time.Now().After(backend.UnhealthyUntil) {
 			backend.IsHealthy = true
-			backend.Mutex.Unlock()
-			vhook.Yield("lb.expire.metrics")
 
-			// Update metrics to reflect healthy status
+			// Update metrics to reflect healthy status (under the backend lock so
+			// that a concurrent ejection cannot be overwritten by this report)
 			if lb.metricsCollector != nil {
 				lb.metricsCollector.UpdateBackendHealth(backend.Name, true)
 			}
+			backend.Mutex.Unlock()
+			vhook.Yield("lb.expire.metrics")
 
 			logging.L().Info().Str("backend", backend.Name).Msg("backend marked healthy")
 			return true
